@@ -64,4 +64,7 @@ def get(name):
         return T.voronoi_at(T.hex_sites(int(m.group(1)), int(m.group(2)), int(m.group(3)) / 100.0, int(m.group(4))))
     if name == "lens":
         return T.lens_at(0.8)
+    m = re.fullmatch(r"fan(\d+)", name)
+    if m:
+        return T.polygons_at(T.fan_polys(int(m.group(1))))
     raise KeyError(name)
